@@ -16,6 +16,7 @@ package c07
 import (
 	"fmt"
 	"math/rand"
+	"os"
 	"strconv"
 	"strings"
 	"time"
@@ -247,6 +248,83 @@ func doDepthRaw(c *core.Ctx, mn, mx int, rr, rt bool, n *core.N) {
 	c.Emit("C07.depthraw", strconv.Itoa(mn), strconv.Itoa(mx), b2s(rr), b2s(rt), n.Dump(), out, a)
 }
 
+// doDepthStale: CollapseTopoDepth on a tree that was indexed (ReinitIndexes) and then EDITED without
+// re-indexing, so that the subtree sizes stored on the branches are stale:
+//
+//	scenario 0: no edit (fresh indexes);
+//	scenario 1: GraftTipOnEdge(tip "g", branch number arg of Edges()) — the two new branches have no sizes;
+//	scenario 2: SetRoot(arg-th inner node of Nodes()) + ReorderEdges — sizes stay, sides are swapped on the path.
+//
+// The case line carries what the call starts from: α of the edited tree and (id, ntaxleft, ntaxright) of
+// every branch, read through NumTipsLeft/NumTipsRight.
+//
+//	C07.depthstale mn mx rr rt scenario arg baseDump | curDump stored outcome dumpAfter
+func doDepthStale(c *core.Ctx, mn, mx int, rr, rt bool, scenario, arg int, n *core.N) {
+	pre := []string{strconv.Itoa(mn), strconv.Itoa(mx), b2s(rr), b2s(rt), strconv.Itoa(scenario), strconv.Itoa(arg), n.Dump()}
+	t := mustBuild(n)
+	if err := t.ReinitIndexes(); err != nil {
+		return
+	}
+	setup := func() {
+		switch scenario {
+		case 1:
+			es := t.Edges()
+			if len(es) == 0 {
+				return
+			}
+			maxid := 0
+			for _, e := range es {
+				if e.Id() > maxid {
+					maxid = e.Id()
+				}
+			}
+			g := t.NewNode()
+			g.SetName("g")
+			e1, e2, _, err := t.GraftTipOnEdge(g, es[arg%len(es)])
+			if err != nil {
+				panic(err)
+			}
+			e1.SetId(maxid + 1)
+			e2.SetId(maxid + 2)
+		case 2:
+			var inner []*tree.Node
+			for _, x := range t.Nodes() {
+				if !x.Tip() {
+					inner = append(inner, x)
+				}
+			}
+			if len(inner) == 0 {
+				return
+			}
+			t.SetRoot(inner[arg%len(inner)])
+			if err := t.ReorderEdges(t.Root(), nil, nil); err != nil {
+				panic(err)
+			}
+		}
+	}
+	if p, msg := core.Safe(setup); p {
+		panic("C07.depthstale setup: " + msg)
+	}
+	cur, wf := core.Alpha(t)
+	if !wf.OK() {
+		panic("C07.depthstale: edited tree malformed")
+	}
+	var stored strings.Builder
+	for _, e := range t.Edges() {
+		fmt.Fprintf(&stored, "%d:%d:%d,", e.Id(), e.NumTipsLeft(), e.NumTipsRight())
+	}
+	var err error
+	if p, msg := core.Safe(func() { err = t.CollapseTopoDepth(mn, mx, rr, rt) }); p {
+		c.Emit("C07.depthstale", append(pre, cur.Dump(), stored.String(), "panic:"+core.Escape(msg), "")...)
+		return
+	}
+	out, a := after(t)
+	if err != nil && out == "ok" {
+		out = "err"
+	}
+	c.Emit("C07.depthstale", append(pre, cur.Dump(), stored.String(), out, a)...)
+}
+
 func doRemove(c *core.Ctx, rr, rt bool, ids []int, n *core.N) {
 	t := mustBuild(n)
 	byId := map[int]*tree.Edge{}
@@ -401,6 +479,14 @@ func Replay(c *core.Ctx, lines []string) {
 			mn, _ := strconv.Atoi(f[1])
 			mx, _ := strconv.Atoi(f[2])
 			doDepth(c, cli, mn, mx, s2b(f[3]), s2b(f[4]), mustDump(f[5]))
+		case f[0] == "C07.cmd" && len(f) >= 6:
+			replayCmd(c, f)
+		case f[0] == "C07.depthstale" && len(f) >= 8:
+			mn, _ := strconv.Atoi(f[1])
+			mx, _ := strconv.Atoi(f[2])
+			sc, _ := strconv.Atoi(f[5])
+			arg, _ := strconv.Atoi(f[6])
+			doDepthStale(c, mn, mx, s2b(f[3]), s2b(f[4]), sc, arg, mustDump(f[7]))
 		case f[0] == "C07.depthraw" && len(f) >= 6:
 			mn, _ := strconv.Atoi(f[1])
 			mx, _ := strconv.Atoi(f[2])
@@ -491,6 +577,10 @@ func depthCase(c *core.Ctx, cli bool) {
 		doDepthRaw(c, mn, mx, c.G.Chance(0.35), c.G.Chance(0.3), n)
 		return
 	}
+	if !cli && c.G.Chance(0.15) {
+		doDepthStale(c, mn, mx, c.G.Chance(0.35), c.G.Chance(0.3), c.G.Intn(3), c.G.Intn(64), n)
+		return
+	}
 	doDepth(c, cli, mn, mx, c.G.Chance(0.35), c.G.Chance(0.3), n)
 }
 
@@ -543,7 +633,13 @@ func resolveCase(c *core.Ctx, cli bool) {
 // Run generates the cases of C07.
 func Run(c *core.Ctx) {
 	if c.Arg != "" {
-		Replay(c, core.ReadRequests(c.Arg))
+		lines := core.ReadRequests(c.Arg)
+		if os.Getenv("VERIF_SHRINK") != "" {
+			for i := range lines {
+				lines[i] = Shrink(c, lines[i])
+			}
+		}
+		Replay(c, lines)
 		return
 	}
 	n := c.Scale(800, 25000)
@@ -563,6 +659,9 @@ func Run(c *core.Ctx) {
 	}
 	if c.Gotree != "" {
 		m := c.Scale(40, 800)
+		for i := 0; i < c.Scale(1, 12); i++ {
+			cmdCases(c) // every flag combination of the four commands
+		}
 		for i := 0; i < m/8; i++ {
 			multiCLI(c)
 		}
